@@ -401,7 +401,7 @@ def c20_jobs(tier, seed):
     jobs += [('vh_c11_new', [r], CUT) for r in (0, 1, 2)] + [('vh_c11_ldexp', [r], CUT) for r in (0, 1, 2)] + [('vh_c11_frexp', [], CUT)]
     jobs += [('vh_c04_far', [1]), ('vh_c04_far', [-1])] + [('vh_c04_special', [a, b]) for a in range(4) for b in range(4) if a or b]
     jobs += [('vh_c01_far', [s, sub], CUT) for s in (1, -1) for sub in (0, 1)]
-    jobs += [('vh_c02_mul', [], CUT)]
+    jobs += [('vh_c02_mul', [], CUT), ('vh_c10_fromint', [130], CUT), ('vh_c10_int', [100, 1], CUT), ('vh_c10_int', [0, 1], CUT)]
     jobs += [('vh_c10_from', [], CUT)] + [('vh_c10_fixed', [w, e], CUT) for w in range(4) for e in (100, 101)] + [('vh_c10_fixed_special', [w, c], CUT) for w in range(4) for c in (1, 2, 3)]
     jobs += [('vh_c05_parse', [L, 0], CUT) for L in range(0, 4)] + [('vh_c05_mustparse', [L]) for L in range(0, 3)]
     jobs += [('vh_c14_forms', [f], CUT) for f in (1, 2, 3, 255)] + [('vh_c14_compose', [n, r], CUT) for n in (0, 1, 2) for r in (0, 1, 2)]
@@ -434,4 +434,32 @@ PROPS['C13'] = {
     'outside': 'MarshalJSON and the round trip through it (the formatting code is not encoded: see C06/C07); encoding/json plumbing (structs, slices, maps) is replaced by its documented contract; inputs longer than the stated bound',
     'assumptions': ['encoding/json hands UnmarshalJSON the raw token; the method is driven directly with arbitrary bytes (a superset)', 'reflect.TypeOf/ValueOf are opaque'],
     'validate_per_harness': 6,
+}
+
+
+# ---------------------------------------------------------------- C18 (special-case ladder)
+def c18_jobs(tier, seed):
+    jobs = []
+    tab = FPTABLE['pow']
+    POW = {'cuts': 'pow'}
+    for cx in range(11):
+        for cy in range(13):
+            want, wantv = tab[(cx, cy)]
+            if want == 6 and cx >= 7 and cy >= 7:
+                continue        # finite base and exponent, finite result: the general path (outside this check)
+            jobs.append(('vh_c18_table', [cx, cy, want, wantv], POW))
+    for p in range(0, 9):
+        jobs.append(('vh_c18_pow10', [p], POW))
+    return jobs
+
+
+PROPS['C18'] = {
+    'jobs': c18_jobs,
+    'needs_fptable': True,
+    'must_reach': ['C18:y0', 'C18:x1', 'C18:y1', 'C18:ym1', 'C18:nan', 'C18:table', 'C18:invalid', 'C18:p10', 'C18:p10inf', 'C18:p10zero'],
+    'bounds': {'all': 'PowWithMode special-case ladder: all 11 x 13 operand class pairs (NaN, +-Inf, +-0, +-1 in every cohort encoding, |x|>1, |x|<1 of either sign; y NaN, +-Inf, +-0, +-1, odd/even integers, non-integers of either sign) with every bit inside a class symbolic and the mode symbolic; expected result classes/values from math.Pow of the installed toolchain; y=0 -> 1, x=1 -> 1, y=1 -> x bit-identical, y=-1 -> the mode-rounded reciprocal (QuoWithMode as an uninterpreted function), NaN propagation, negative base with non-integer exponent -> NaN with the Pow payload; powers of ten raised to integers n x 10^p (p 0..8, n <= 10^6) give exactly 10^(a*n*10^p) or +Inf / +0 beyond the range.',},
+    'outside': 'the general path (log -> mul -> exp -> rcp), its error bound and the overflow/underflow decisions taken after it (any path that reaches decomposed192.log ends there; see C16); integer / half-integer exponents in encodings other than exponent 0 / -1; the +-0.5 shortcut for even powers of ten; Pow == PowWithMode(DefaultRoundingMode)',
+    'assumptions': ['QuoWithMode is an uninterpreted function in this check (its own correctness is C02)', 'assume-guarantee at the rounding kernel'],
+    'trusted': ['math.Pow of the installed Go toolchain as the reference for the special-case table'],
+    'validate_per_harness': 3,
 }
